@@ -53,8 +53,10 @@ Value& MemberMETHODExpression::value(Context& ctx) const
     throw RuntimeError(EXC_RT_MEMB_FAILED_S, KEYWORDS[_builtin]);
 
   Value& val = _exp->value(ctx);
+  /* a method of a null object yields null, of the type the method declares:
+   * returning the null object itself would contradict the compiled type */
   if (val.isNull())
-    return val;
+    return ctx.allocate(Value(_type_method));
   const PLUGGED_MODULE& plug = PluginManager::instance().plugged(_method_type_id);
   if (val.type().minor() != _method_type_id)
     throw RuntimeError(EXC_RT_BAD_COMPLEX_S, plug.interface.name);
